@@ -299,11 +299,22 @@ def rule_queue(ctx: Ctx) -> None:
             ctx.ob("C19-2", "G2", m, (pops_m or pops_t)[0], len(pops_m) == len(pops_t), f"DeadLetterQueue.{m.name}: messages and their arrival times are removed together ({len(pops_m)} vs {len(pops_t)} removals)")
     ce = dq.methods["_cleanup_expired"]
     sd_ce = single_defs(ce)
-    tests = [t_ for t_ in walk_stmts(ce.node.body) if isinstance(t_, ast.If) and any(path_of(k.func) == "self._messages.popleft" for b_ in t_.body for k in calls_in(b_))]
-    okc = len(tests) == 1
+    cef = ctx.flow(ce)
+    popn = [n_ for n_ in cef.cfg.nodes if n_.kind == "stmt" and any(path_of(k.func) == "self._messages.popleft" for k in calls_in(n_.ast))]
+    tests = [n_ for n_ in cef.cfg.nodes if n_.kind == "test" and "self._retention_period" in unparse(n_.ast) and not (isinstance(n_.ast, ast.Compare) and isinstance(n_.ast.ops[0], (ast.Is, ast.IsNot)))]
+    okc = len(popn) == 1 and len(tests) == 1
     if okc:
-        te = unparse(expand(tests[0].test, sd_ce)).replace(" ", "")
+        te = unparse(expand(tests[0].ast, sd_ce)).replace(" ", "")
         okc = "self._message_times[0]" in te and "self._retention_period" in te and "self._messages[" not in te
+        # the removal happens only on the "older than the retention period" side of that test, however the branch is written
+        age = [f.sig for f in atoms(tests[0].ast, True)]
+        for p_ in enumerate_paths(cef, tests[0], stop=lambda x: x is popn[0]):
+            if p_.end == "stop" and p_.nodes[-1] is popn[0]:
+                side = p_.labels[0][1] if p_.labels and p_.labels[0] is not None else None
+                fs = {f.sig for f in atoms(tests[0].ast, bool(side))}
+                if not any(sg[0] == "lt" and sg[1] == "self._retention_period" for sg in fs):
+                    okc = False
+    tests = [t_.ast for t_ in tests]
     ctx.ob("C19-2", "G7", ce, tests[0] if tests else None, okc, "DeadLetterQueue._cleanup_expired discards a dead letter only when the time since it *entered the DLQ* (`_message_times[0]`) exceeds the retention period "
            "— a message that spent long in the queue before being dead-lettered is not lost on arrival")
 
